@@ -181,7 +181,20 @@ func checkSpansSuccess(src string, stmts []parser.Statement) string {
 	if m := checkAbsentParts(stmts); m != "" {
 		return m
 	}
+	// token boundaries are the language's (reference tokenizer), not whatever
+	// the scanner under test says; a source the reference cannot read is
+	// C08's and C09's business
 	toks := parser.Scan(src)
+	if ref, bad := refTokens(src); bad == "" {
+		if len(ref) != len(toks) {
+			return fmt.Sprintf("positions are recorded for %d tokens, the source has %d tokens (reference tokenizer): the tree of a successful parse designates text that is no token, or misses one", len(toks), len(ref))
+		}
+		for i := range ref {
+			if ref[i].Span != toks[i].Span {
+				return fmt.Sprintf("token %d is recorded at %v, the language puts it at %v (reference tokenizer)", i, toks[i].Span, ref[i].Span)
+			}
+		}
+	}
 	starts, ends := map[int]int{}, map[int]int{}
 	for i, t := range toks {
 		starts[t.Span.Start] = i
@@ -490,7 +503,8 @@ func TestC10Programs(t *testing.T) {
 			}
 			msg, parsed := checkPositions(laid.Src)
 			if !parsed {
-				rt.Fatalf("harness: grammar program rejected (C07's business): %+q", laid.Src)
+				// C07 reports the rejection; the failure half of C10 still applies
+				st.Class("grammar-program-rejected")
 			}
 			if msg != "" {
 				st.Violation(rt, "C10", "positions", mkStrCase(laid.Src), "%+q: %s", laid.Src, msg)
@@ -592,7 +606,7 @@ func TestC10Large(t *testing.T) {
 		st.NonTrivial(fmt.Sprint(class, n))
 		msg, parsed := checkPositions(src)
 		if !parsed && msg == "" {
-			rt.Fatalf("harness: large grammar program rejected (C07's business)")
+			st.Class("grammar-program-rejected")
 		}
 		if msg != "" {
 			st.Violation(rt, "C10", "positions", mkStrCase(src), "%s program of size %d: %s", class, n, trunc(msg, 600))
